@@ -6,7 +6,7 @@ from .gen import History, ObjGen, OpsGen, hx, ul, CK, attr_value, P256
 # ---------------------------------------------------------------------------------------------------------
 # C09: a rejected template leaves no prefix — every class x every way of being rejected x both positions
 # ---------------------------------------------------------------------------------------------------------
-def c09_prefix_matrix(tables, seed=1, classes=None):
+def c09_prefix_matrix(tables, seed=1, classes=None, copies=True):
     """For every object class (session and token object): C_SetAttributeValue / C_CopyObject with a template made of ONE valid, modifiable entry (a new
     label) and ONE entry that makes the call fail (unknown type, attribute of another class, read-only attribute, wrongly sized value, CKA_LOCAL), in both
     orders; after each refused call the label is read back through two sessions, searched for by the old and the new value, and at the end a valid change
@@ -42,9 +42,18 @@ def c09_prefix_matrix(tables, seed=1, classes=None):
                     h.op(f"setattr @{k} @{o} {tpl}")
                     h.op(f"getattr @{k} @{o} 3:64"); h.op(f"getattr @{k2} @{o} 3:64")
                     h.op(f"findinit @{k2} 3={hx(nl)}"); h.minted += 2; h.op(f"find @{k2} 10"); h.op(f"findfinal @{k2}")
-                nl = lab()
-                cp = h.op(f"copy @{k} @{o} 3={hx(nl)} {bad}"); h.minted += 1
-                h.op(f"findinit @{k2} 3={hx(nl)}"); h.minted += 2; h.op(f"find @{k2} 10"); h.op(f"findfinal @{k2}")
+                if copies:
+                    nl = lab()
+                    cp = h.op(f"copy @{k} @{o} 3={hx(nl)} {bad}"); h.minted += 1
+                    h.op(f"findinit @{k2} 3={hx(nl)}"); h.minted += 2; h.op(f"find @{k2} 10"); h.op(f"findfinal @{k2}")
+            # every attribute that may be changed after creation, as the valid entry in front of a rejected one (the stores cache and roll back per attribute kind)
+            for a in c["attrs"]:
+                if not (a["checks"] & CK[8]) or a["dkind"] not in ("bool", "bytes") or a["type"] in (1, 2, 3, 0x103, 0x162, 0x210, 0x170, 0x171, 0x172, 0x86): continue
+                vals = ["00", "01"] if a["dkind"] == "bool" else ([".", bytes(rng.randrange(256) for _ in range(3)).hex()] if a["type"] == 0x90 else
+                                                                   [attr_value(rng, a, True, c["name"])])
+                for v in vals:
+                    h.op(f"setattr @{k} @{o} {a['type']:x}={v} 9999={hx('q')}")
+                    h.op(f"getattr @{k} @{o} {a['type']:x}:300"); h.op(f"getattr @{k2} @{o} {a['type']:x}:300")
             nl = lab()
             h.op(f"setattr @{k} @{o} 3={hx(nl)}")          # the object must still be changeable (no transaction left open by a refused call)
             h.op(f"getattr @{k2} @{o} 3:64")
@@ -107,39 +116,60 @@ def c07_reauth_scope(seed=1, depth=3, sample=None):
 # ---------------------------------------------------------------------------------------------------------
 # C03 (also C11 / C14): the shape of the session table — every short order of opens and closes, then the login rules
 # ---------------------------------------------------------------------------------------------------------
-def c03_session_table(seed=1, depth=4, sample=None):
-    """Two tokens.  For EVERY sequence of `depth` calls from {open A read-only, open A read-write, open B read-write, close the 1st / 2nd / 3rd session opened}
-    (so that the internal session table has holes, sessions of the other token in between, read-only sessions behind holes ...): SO login through each session
-    (refused iff a read-only session of A exists), state of every session, logout, user login, state of every session, and - when the SO login succeeded -
-    the attempt to open a read-only session.  Each sequence starts from C_Initialize."""
+def c03_session_table(seed=1, depth=4, sample=None, nchunks=16):
+    """Two tokens, a private token object on A.  For EVERY sequence of `depth` calls from {open A read-only, open A read-write, open B read-write, close the
+    1st / 2nd / 3rd session opened, user login / SO login / logout through the newest open session of A} - so that the internal session table has holes,
+    sessions of the other token in between, read-only sessions behind holes, logins that outlive or do not outlive their sessions - the tail observes:
+    the state of every session, a FRESH session on each token (its state tells whether the token is still logged in; a search for A's private object tells
+    whether it is reachable), then the login rules (SO login refused iff a read-only session of that token exists; read-only open refused while the SO is in).
+    Each sequence starts from C_Initialize.  Returns (list of op texts, number of sequences)."""
     rng = random.Random(seed)
-    h = History(rng)
-    h.prologue(2)
-    A, B = h.toks[0], h.toks[1]
-    h.op("fini")
-    al = [f"open t:{hx(A.label)} 4", f"open t:{hx(A.label)} 6", f"open t:{hx(B.label)} 6", "close1", "close2", "close3"]
+    al = ["openA4", "openA6", "openB6", "close1", "close2", "close3", "loginU", "loginS", "logout"]
     seqs = list(itertools.product(al, repeat=depth))
     if sample is not None and len(seqs) > sample: seqs = rng.sample(seqs, sample)
-    n = 0
-    for s in seqs:
-        h.op("init"); h.op("slots")
-        opened = []
-        for c in s:
-            if c.startswith("open"): opened.append((h.op(c), A if hx(A.label) in c else B))
-            else:
-                i = int(c[5:]) - 1
-                if i < len(opened): h.op(f"close @{opened[i][0]}")
-        for k, tk in opened[:3]:
-            h.op(f"login @{k} 0 {hx(tk.so)}")
-            for j, _ in opened[:4]: h.op(f"sinfo @{j}")
-            h.op(f"open t:{hx(tk.label)} 4")          # refused while the SO is logged in
-            h.op(f"logout @{k}")
-            h.op(f"login @{k} 1 {hx(tk.user)}")
-            for j, _ in opened[:4]: h.op(f"sinfo @{j}")
-            h.op(f"logout @{k}")
+    chunks = [seqs[i::nchunks] for i in range(nchunks)]
+    texts = []
+    for ch in chunks:
+        if not ch: continue
+        h = History(random.Random(seed))
+        h.prologue(2)
+        A, B = h.toks[0], h.toks[1]
+        k = h.open(A, True); h.login(k, A, 'user')
+        h.op(f"create @{k} 0={ul(0)} 1=01 2=01 3={hx('private-of-A')} 11={hx('secret')}"); h.minted += 1
         h.op("fini")
-        n += 1
-    return h.text(), n
+        for s in ch:
+            h.op("init"); h.op("slots")
+            opened = []        # (op index, token, still open)
+            for c in s:
+                if c.startswith("open"):
+                    tk = A if c[4] == "A" else B
+                    opened.append([h.op(f"open t:{hx(tk.label)} {c[5]}"), tk, True])
+                elif c.startswith("close"):
+                    i = int(c[5:]) - 1
+                    if i < len(opened): h.op(f"close @{opened[i][0]}"); opened[i][2] = False
+                else:
+                    live = [o for o in opened if o[1] is A and o[2]]
+                    if not live: continue
+                    kk = live[-1][0]
+                    if c == "loginU": h.op(f"login @{kk} 1 {hx(A.user)}")
+                    elif c == "loginS": h.op(f"login @{kk} 0 {hx(A.so)}")
+                    else: h.op(f"logout @{kk}")
+            for o in opened[:4]: h.op(f"sinfo @{o[0]}")
+            # a fresh session on each token: is anybody still logged in, is the private object reachable?
+            fa = h.op(f"open t:{hx(A.label)} 6"); h.op(f"sinfo @{fa}")
+            h.op(f"findinit @{fa} 3={hx('private-of-A')}"); h.minted += 1; h.op(f"find @{fa} 5"); h.op(f"findfinal @{fa}")
+            h.op(f"create @{fa} 0={ul(0)} 1=00 2=01 3={hx('p2')}"); h.minted += 1
+            fb = h.op(f"open t:{hx(B.label)} 6"); h.op(f"sinfo @{fb}")
+            h.op(f"logout @{fa}"); h.op(f"close @{fa}"); h.op(f"close @{fb}")
+            live = [o for o in opened if o[2]]
+            for kk, tk, _ in live[:2]:
+                h.op(f"login @{kk} 0 {hx(tk.so)}")
+                for o in live[:3]: h.op(f"sinfo @{o[0]}")
+                h.op(f"open t:{hx(tk.label)} 4")          # refused while the SO is logged in
+                h.op(f"logout @{kk}")
+            h.op("fini")
+        texts.append(h.text())
+    return texts, len(seqs)
 
 
 # ---------------------------------------------------------------------------------------------------------
@@ -227,3 +257,184 @@ def c13_unwrap_matrix(seed=1, sample=None):
         h.op(f"destroy @{k} @{u}")
     h.op("fini")
     return h.text(), len(cells)
+
+
+# ---------------------------------------------------------------------------------------------------------
+# C02 / C08: what a derived key inherits — concatenation mechanisms x (SENSITIVE, EXTRACTABLE) of base and second key x template
+# ---------------------------------------------------------------------------------------------------------
+def c02_derive_matrix(seed=1):
+    rng = random.Random(seed)
+    h = OpsGen(rng)
+    h.prologue(1)
+    t = h.toks[0]
+    k = h.open(t, True); h.login(k, t, 'user')
+    U = ul
+    keys = {}
+    for sens, extr in itertools.product(("00", "01"), ("00", "01")):
+        keys[(sens, extr)] = h.op(f"create @{k} 0={U(4)} 100={U(0x10)} 3={hx(h.new_label())} 11={bytes(rng.randrange(256) for _ in range(16)).hex()} 103={sens} 162={extr} 10c=01"); h.minted += 1
+    # keys made ON the token: only these can have ALWAYS_SENSITIVE / NEVER_EXTRACTABLE true
+    gens = {}
+    for sens, extr in itertools.product(("00", "01"), ("00", "01")):
+        gens[(sens, extr)] = h.op(f"genkey @{k} 350 3={hx(h.new_label())} 161={U(16)} 103={sens} 162={extr} 10c=01"); h.minted += 1
+    tpls = ["", "103=01", "162=01", "162=01 103=00", "162=00", "103=00"]
+    def after(u):
+        h.op(f"getattr @{k} @{u} 103:1 162:1 164:1 165:1 163:1 210:1"); h.op(f"getattr @{k} @{u} 11:600"); h.op(f"destroy @{k} @{u}")
+    for pool in (keys, gens):
+        for (bs, be), base in pool.items():
+            for (os_, oe), other in pool.items():
+                for tp in tpls:
+                    u = h.op(f"derive @{k} 360:obj(@{other}) @{base} 3={hx(h.new_label())} {tp}"); h.minted += 1; after(u)
+            for mech in ("362", "363"):
+                for tp in tpls:
+                    u = h.op(f"derive @{k} {mech}:str(a1b2c3d4) @{base} 3={hx(h.new_label())} {tp}"); h.minted += 1; after(u)
+    h.op("fini")
+    return h.text()
+
+
+# ---------------------------------------------------------------------------------------------------------
+# C11: handles die exactly with what they denote — every short order of opens / closes / creations / copies / logins
+# ---------------------------------------------------------------------------------------------------------
+def c11_scope(seed=1, depth=4, sample=None, nchunks=16):
+    """One token with a token object.  EVERY sequence of `depth` calls from {open a session, close the 1st / 2nd / 3rd session opened, create a public session object / a
+    private session object in the newest session, COPY the first live object into a session object of the newest session, user login, logout, close all}; the tail asks
+    about every handle value that can have been issued (C_GetSessionInfo, an attribute read through a surviving session) and searches for everything from a fresh
+    session: a session object must be gone exactly when ITS session was closed, not when another one was, and a dead handle must never come back."""
+    rng = random.Random(seed)
+    al = ["open", "close1", "close2", "close3", "mkpub", "mkpriv", "copy", "loginU", "logout", "closeall"]
+    seqs = list(itertools.product(al, repeat=depth))
+    if sample is not None and len(seqs) > sample: seqs = rng.sample(seqs, sample)
+    chunks = [seqs[i::nchunks] for i in range(nchunks)]
+    texts = []
+    for ch in chunks:
+        if not ch: continue
+        h = History(random.Random(seed))
+        h.prologue(1)
+        A = h.toks[0]
+        k = h.open(A, True)
+        h.op(f"create @{k} 0={ul(0)} 1=01 2=00 3={hx('token-object')} 11={hx('t')}")
+        h.op("fini")
+        for s in ch:
+            h.op("init"); h.op("slots")
+            base = h.op(f"open t:{hx(A.label)} 6")               # a session that stays open: the observer
+            h.op(f"findinit @{base} 3={hx('token-object')}"); tobj = h.op(f"find @{base} 1"); h.op(f"findfinal @{base}")
+            opened, objs, minted = [], [f"@{tobj}"], 2
+            for c in s:
+                live = [o for o in opened if o[1]]
+                if c == "open": opened.append([h.op(f"open t:{hx(A.label)} 6"), True]); minted += 1
+                elif c.startswith("close") and c != "closeall":
+                    i = int(c[5:]) - 1
+                    if i < len(opened): h.op(f"close @{opened[i][0]}"); opened[i][1] = False
+                elif c == "closeall":
+                    h.op(f"closeall t:{hx(A.label)}")
+                    for o in opened: o[1] = False
+                    base = h.op(f"open t:{hx(A.label)} 6"); minted += 1
+                elif c == "loginU": h.op(f"login @{(live[-1][0] if live else base)} 1 {hx(A.user)}")
+                elif c == "logout": h.op(f"logout @{(live[-1][0] if live else base)}")
+                else:
+                    kk = live[-1][0] if live else base
+                    if c == "mkpub": objs.append(f"@{h.op(f'create @{kk} 0={ul(0)} 1=00 2=00 3={hx(chr(97 + len(objs)))}')}"); minted += 1
+                    elif c == "mkpriv": objs.append(f"@{h.op(f'create @{kk} 0={ul(0)} 1=00 2=01 3={hx(chr(97 + len(objs)))}')}"); minted += 1
+                    else: objs.append(f"@{h.op(f'copy @{kk} {objs[0] if len(objs) == 1 else objs[-1]} 1=00 3={hx(chr(97 + len(objs)))}')}"); minted += 1
+            for v in range(1, minted + 3):
+                h.op(f"sinfo {v}"); h.op(f"probe @{base} {v}")
+            fresh = h.op(f"open t:{hx(A.label)} 6")
+            h.op(f"findinit @{fresh}"); h.op(f"find @{fresh} 50"); h.op(f"findfinal @{fresh}")
+            for o in objs: h.op(f"getattr @{fresh} {o} 3:64")
+            h.op("fini")
+        texts.append(h.text())
+    return texts, len(seqs)
+
+
+# ---------------------------------------------------------------------------------------------------------
+# C15: the FIRST call of a process on an object another process has just changed or destroyed — every entry point that takes an object
+# ---------------------------------------------------------------------------------------------------------
+def c15_first_touch(seed=1):
+    """Process 0 creates token keys; process 1 learns them (search + one read, so that it holds a handle and a cached copy).  Then, for every entry point E that takes an
+    object, process 0 commits a change (CKA_EXTRACTABLE / usage flags off, a new label, or C_DestroyObject) and E is the FIRST call of process 1 that touches the object.
+    The multi-process model says what process 1 must see: the committed state."""
+    rng = random.Random(seed)
+    lines, cnt = [], [0, 0]
+    def op(i, text):
+        cnt[i] += 1; lines.append(f"P{i} {text}"); return cnt[i]
+    lab, so, user = hx("tokA"), hx("so0pin0"), hx("user0pin")
+    U = ul
+    op(0, "init"); op(0, "slots"); op(0, f"inittoken free {so} {lab}"); op(0, "slots")
+    k = op(0, f"open t:{lab} 6"); op(0, f"login @{k} 0 {so}"); op(0, f"initpin @{k} {user}"); op(0, f"close @{k}")
+    s0 = op(0, f"open t:{lab} 6"); op(0, f"login @{s0} 1 {user}")
+    op(1, "init"); op(1, "slots"); s1 = op(1, f"open t:{lab} 6"); op(1, f"login @{s1} 1 {user}")
+    # a wrapping key of process 1's own (session object) and a token wrapping key
+    w1 = op(1, f"create @{s1} 0={U(4)} 100={U(0x1f)} 1=00 3={hx('kek-session')} 11={'a7' * 16} 106=01 107=01 104=01 105=01")
+    n = [0]
+    touches = [
+        ("getattr", lambda r: f"getattr @{s1} {r} 3:64 162:1 104:1"),
+        ("setattr", lambda r: f"setattr @{s1} {r} 102={hx('id')}"),
+        ("copy", lambda r: f"copy @{s1} {r} 1=00 3={hx('cp%d' % n[0])}"),
+        ("destroy", lambda r: f"destroy @{s1} {r}"),
+        ("wrap-as-key", lambda r: f"wrap @{s1} 2109 @{w1} {r} 600"),
+        ("wrap-as-wrapping-key", lambda r: f"wrap @{s1} 2109 {r} @{w1} 600"),
+        ("encinit", lambda r: f"encinit @{s1} 1081 {r}"),
+        ("decinit", lambda r: f"decinit @{s1} 1081 {r}"),
+        ("siginit", lambda r: f"siginit @{s1} 108a {r}"),
+        ("verinit", lambda r: f"verinit @{s1} 108a {r}"),
+        ("derive", lambda r: f"derive @{s1} 1104:str({'11' * 16}) {r} 0={U(4)} 100={U(0x10)} 161={U(8)} 3={hx('dv%d' % n[0])}"),
+        ("digkey", lambda r: f"diginit @{s1} 250\nP1 digkey @{s1} {r}"),
+        ("unwrap-with", lambda r: f"unwrap @{s1} 2109 {r} 1fa68b0a8112b447aef34bd8fb5a7b829d3e862371d2cfe5 0={U(4)} 100={U(0x10)} 3={hx('uw%d' % n[0])}"),
+        ("objsize", lambda r: f"objsize @{s1} {r}"),
+        ("find-by-label", None),
+    ]
+    changes = [("flags-off", lambda r: f"setattr @{s0} {r} 162=00 104=00 105=00 106=00 107=00 108=00 10a=00 10c=00"),
+               ("relabel", lambda r: f"setattr @{s0} {r} 3={hx('renamed%d' % n[0])}"),
+               ("destroy", lambda r: f"destroy @{s0} {r}")]
+    for tname, touch in touches:
+        for cname, change in changes:
+            n[0] += 1
+            l = hx("key%d" % n[0])
+            k0 = op(0, f"create @{s0} 0={U(4)} 100={U(0x1f)} 1=01 2=00 3={l} 11={'3c' * 16} 162=01 103=00 104=01 105=01 106=01 107=01 108=01 10a=01 10c=01")
+            op(1, f"findinit @{s1} 3={l}"); f = op(1, f"find @{s1} 5"); op(1, f"findfinal @{s1}")
+            op(1, f"getattr @{s1} @{f}.0 3:64 162:1 104:1")          # process 1 now holds a handle and a loaded copy
+            for ln in change(f"@{k0}").split("\n"): op(0, ln)
+            if touch is None:
+                op(1, f"findinit @{s1} 3={l}"); op(1, f"find @{s1} 5"); op(1, f"findfinal @{s1}")
+            else:
+                for j, ln in enumerate(touch(f"@{f}.0").split("\nP1 ")): op(1, ln)
+            op(1, f"getattr @{s1} @{f}.0 3:64 162:1 104:1")
+            op(1, f"encfinal @{s1} 600"); op(1, f"decfinal @{s1} 600"); op(1, f"sigfinal @{s1} 600"); op(1, f"verfinal @{s1} 00"); op(1, f"digfinal @{s1} 600")   # end whatever was started
+    op(0, f"findinit @{s0}"); op(0, f"find @{s0} 300"); op(0, f"findfinal @{s0}")
+    op(1, f"findinit @{s1}"); op(1, f"find @{s1} 300"); op(1, f"findfinal @{s1}")
+    op(0, "fini"); op(1, "fini")
+    return "\n".join(lines) + "\n"
+
+
+# ---------------------------------------------------------------------------------------------------------
+# C06: every class x CKA_PRIVATE omitted / false / true: what reaches the disk (directory decoded after every storing call)
+# ---------------------------------------------------------------------------------------------------------
+class _ObjGenP(ObjGen):
+    omit_private = False
+    def base_template(self, c, on_token, private, label, give_private=True):
+        return ObjGen.base_template(self, c, on_token, private, label, give_private=not self.omit_private)
+
+
+def c06_class_matrix(tables, seed=1):
+    """Token objects of every class, created with CKA_PRIVATE omitted (the class default decides), false and true, each with its byte-string attributes; a changed
+    label / id; a copy that is made private.  After every storing call the directory is dumped: the Lean decoder must find every byte string of a private object
+    encrypted (and decrypting to what the API returns), and the model's idea of which objects ARE private must agree with what C_GetAttributeValue says."""
+    rng = random.Random(seed)
+    h = _ObjGenP(rng, tables)
+    h.prologue(1)
+    t = h.toks[0]
+    k = h.open(t, True); h.login(k, t, 'user')
+    h.op("dumpdir")
+    for c in h.classes:
+        for mode in ("omit", "00", "01"):
+            h.omit_private = mode == "omit"
+            o = h.create_obj(k, t, c=c, on_token=True, private=(mode == "01"))
+            h.op("dumpdir")
+            h.op(f"getattr @{k} @{o} 2:1 3:64 102:64")
+            bys = [a for a in c["attrs"] if a["dkind"] == "bytes" and (a["checks"] & CK[8]) and a["type"] not in (0x90,)]
+            for a in bys[:2]:
+                h.op(f"setattr @{k} @{o} {a['type']:x}={attr_value(rng, a, True, c['name'])}"); h.op("dumpdir")
+            cp = h.op(f"copy @{k} @{o} 3={hx(h.new_label())} 2=01"); h.minted += 1
+            h.op("dumpdir")
+            h.op(f"destroy @{k} @{cp}"); h.op(f"destroy @{k} @{o}")
+    h.op("fini")
+    return h.text()
